@@ -52,7 +52,7 @@ def same(a, b):
     return a == b and type(a) is type(b) or (a == b and not isinstance(a, bool) and not isinstance(b, bool))
 
 
-def roundtrip(msg, defn, enc):
+def roundtrip(msg, defn, enc, payload=None):
     """-> list of (kind, facts, detail)"""
     try:
         text = msg.to_json()
@@ -96,6 +96,17 @@ def roundtrip(msg, defn, enc):
     if e1 != e2:
         out.append(("encodes_differently", {}, f"original {e1} vs parsed {e2}"))
         return out
+    if payload is not None and defn.id == msg.id:
+        # ... and those bytes are the ones the message came from (C02's comparison under the field masks, applied to the parsed message)
+        from . import c02
+        p, n = payload
+        try:
+            for kind, facts, detail in c02.compare(defn, p, n, c02.encode_payload(enc, back)):
+                out.append(("parsed_message_encodes_other_bytes", dict(facts), f"payload {p.to_bytes(n, 'little').hex()[:60]} -> JSON -> parsed -> encoded: {detail}"))
+        except Exception:  # noqa: BLE001
+            pass
+        if out:
+            return out
     # the frame-level encoders build a CAN identifier from the addressing: same packets expected (fresh encoders: same counter)
     try:
         b1 = NMEA2000Encoder().encode_ebyte(msg)
@@ -152,7 +163,7 @@ def _task_a(args):
             if label[1]:
                 st["nontrivial"] += 1
             ddef = db.by_id.get((msg.PGN, msg.id))
-            for kind, facts, detail in roundtrip(msg, ddef, enc):
+            for kind, facts, detail in roundtrip(msg, ddef, enc, (p, n) if dec is not prefs_dec else None):
                 per_def += 1
                 if per_def <= 20:
                     vios.append({"kind": kind, "facts": dict(facts, definition=msg.id),
@@ -395,7 +406,7 @@ def replay(ctx, rep):
             dec = NMEA2000Decoder()
         prio, src, dst = c.get("addr", [3, 7, 255])
         msg = dec.decode_basic_string(wire.plain_line(prio, c["pgn"], src, dst, data), already_combined=True)
-        res = roundtrip(msg, db.by_id.get((msg.PGN, msg.id)), NMEA2000Encoder())
+        res = roundtrip(msg, db.by_id.get((msg.PGN, msg.id)), NMEA2000Encoder(), (int.from_bytes(data, "little"), len(data)) if not c.get("prefs") else None)
     elif c["part"] == "e":
         db = refdb.db()
         st, v, _ = _task_e(([db.by_id[(c["pgn"], c["definition"])].idx], 0))
